@@ -147,3 +147,13 @@ INVARIANT Safe
 POSTCONDITION Accepted
 CHECK_DEADLOCK FALSE
 """
+
+
+CFG_TRACE_LAYOUT = """SPECIFICATION TSpec
+CONSTANT Ladder <- TLadder
+CONSTANT MaxRetries = 3
+INVARIANT Progress
+INVARIANT Safe
+POSTCONDITION Accepted
+CHECK_DEADLOCK FALSE
+"""
